@@ -9,7 +9,7 @@ From Coq Require Import List NArith Bool PeanoNat Sorted.
 Import ListNotations.
 From RX Require Import Generated.
 From RX.Model Require Import Base CharClass Stream Tokenizer Doc Builder Parse Api.
-From RX.Proofs Require Import PositionProofs ErrPosStream ErrPosTokenizer ErrPosParse.
+From RX.Proofs Require Import PositionProofs ErrPosStream ErrPosTokenizer ErrPosParse ErrPayload.
 Open Scope N_scope.
 
 (* ---- Proofs/PositionProofs.v ---- *)
@@ -97,3 +97,10 @@ Theorem C14_parse_error_in_bounds :
   1 <= fst (error_pos e) /\ fst (error_pos e) <= 1 + count_byte 10 text /\ 1 <= snd (error_pos e) /\ snd (error_pos e) <= 1 + char_count text.
 Proof. exact parse_error_in_bounds. Qed.
 Print Assumptions C14_parse_error_in_bounds.
+
+(* ---- Proofs/ErrPayload.v ---- *)
+Theorem C14_parse_error_payload_from_source :
+  forall text opt e,
+  valid_utf8_b text = true -> parse text opt = Err e -> payload_ok text e.
+Proof. exact parse_error_payload_from_source. Qed.
+Print Assumptions C14_parse_error_payload_from_source.
